@@ -14,7 +14,7 @@ import traceback
 HERE = os.path.dirname(os.path.dirname(os.path.abspath(__file__)))
 LEAN_DIR = os.path.join(HERE, "lean")
 DRIVER = os.path.join(LEAN_DIR, ".lake", "build", "bin", "driver")
-EVIDENCE_DIR = os.path.join(HERE, "evidence")
+EVIDENCE_DIR = os.environ.get("VERIF_EVIDENCE") or os.path.join(HERE, "evidence")
 REPLAY_DIR = os.path.join(EVIDENCE_DIR, "replay")
 REPO = os.environ.get("VERIF_REPO", "/repo")
 ALLOWED_AXIOMS = {"propext", "Classical.choice", "Quot.sound"}
@@ -48,6 +48,14 @@ def ensure_built():
     if p.returncode != 0 or not os.path.exists(DRIVER):
         raise Infra("lake build failed:\n" + p.stdout[-4000:])
     return time.time() - t0
+
+
+def assert_repo():
+    """The implementation under test must be the tree at REPO (default /repo; VERIF_REPO names a scratch copy)."""
+    import in_toto
+    got = os.path.realpath(os.path.dirname(os.path.dirname(in_toto.__file__)))
+    if got != os.path.realpath(REPO):
+        raise Infra("in_toto is imported from %s, not from %s" % (got, REPO))
 
 
 def _strip_comments(text):
